@@ -18,9 +18,9 @@ from vlib.lib import mod
 
 PROPERTY = 'C19'
 RULE = ('calls = schema_valid(schema, validator in {Draft3, Draft4, Draft7}, expect_failure) over all bundled schema files and '
-        'valid_against_schema(doc, schema, expect_failure) over all sample documents x all top-level schemas (valid or not); '
+        'valid_against_schema(doc, schema, expect_failure) over all sample documents x all top-level schemas (valid or not) and two documents x every definition file and the metaschema; '
         'histories: ALL sequences of length <= 2 over a reduced call set, ALL triples (x, y, x\') where x\' differs from x only in '
-        'expect_failure, and a Hypothesis RuleBasedStateMachine drawing up to 60 calls that overflow the 20-entry caches; the '
+        'expect_failure, ALL cross-function pairs (schema check of s, validation against s) in both orders, and a Hypothesis RuleBasedStateMachine drawing up to 60 calls that overflow the 20-entry caches; the '
         'caches are cleared at the start of every history; oracle: every call in every history must equal the outcome (True / '
         'False / exception type) of the same single call made first in a NEW interpreter process with the network blocked '
         '(reference table computed in real subprocesses, once per run); fixed facts: bundled valid samples validate, *_invalid* '
@@ -42,6 +42,11 @@ def universe():
     top = [s for s in schemas if not s.endswith('metaschema.json')]
     sv = [('sv', s, v, ef) for s in schemas + defs for v in VALIDATORS for ef in (False, True)]
     va = [('va', d, s, ef) for d in docs for s in top for ef in (False, True)]
+    # the definition files are schemas too ("every bundled schema"): two documents each keep the table small
+    for s in defs + [x for x in schemas if x.endswith('metaschema.json')]:
+        for d in (docs[0], docs[len(docs) // 2]):
+            for ef in (False, True):
+                va.append(('va', d, s, ef))
     return sv, va, docs, top
 
 
@@ -270,6 +275,15 @@ def run(ctx):
             hists.append([x, x2])
             for y in ys:
                 hists.append([x, y, x2])
+    # cross-function histories: the schema check of s (every validator, both expectations) followed by a validation
+    # against the same s, and the other way round - the two helpers must not feed each other's answers
+    by_schema = {}
+    for c in va:
+        by_schema.setdefault(c[2], []).append(c)
+    for c in sv:
+        for v in by_schema.get(c[1], [])[:4]:
+            hists.append([c, v])
+            hists.append([v, c])
     # eviction histories: x, 21 other keys of the same function, x again (both expectations)
     for x in rng.sample(allcalls, 12 if not thorough else 60):
         pool = [c for c in (va if x[0] == 'va' else sv) if key_of(c) != key_of(x) and not c[3]]
